@@ -20,7 +20,7 @@ def Mem_GetExpiration : List String := ["mu.RLock", "@m.data", "{ret", "mu.RUnlo
 def Mem_GetHash : List String := ["mu.RLock", "@m.data", "{ret", "mu.RUnlock", "}", "IsZero", "@item.Expiration", "After", "@item.Expiration", "@hash", "@item.Value", "@hash", "mu.RUnlock", "{ret", "mu.Lock", "@m.data", "IsZero", "@item.Expiration", "After", "@item.Expiration", "delete", "@m.data", "mu.Unlock", "}", "{ret", "}", "{ret", "}"]
 def Mem_GetList : List String := ["m.Get", "{ret", "}", "{ret", "}"]
 def Mem_Incr : List String := ["m.IncrBy"]
-def Mem_IncrBy : List String := ["mu.Lock", "defer mu.Unlock", "@m.data", "Add", "@m.data", "IsZero", "@item.Expiration", "After", "@item.Expiration", "@item.Expiration", "Add", "@item.Value", "{ret", "@item.Value", "}"]
+def Mem_IncrBy : List String := ["mu.Lock", "defer mu.Unlock", "@m.data", "Add", "@m.data", "IsZero", "@item.Expiration", "After", "@item.Expiration", "@item.Value", "@item.Expiration", "Add", "@item.Value", "{ret", "@item.Value", "}"]
 def Mem_RemoveFromList : List String := ["mu.Lock", "defer mu.Unlock", "@m.data", "{ret", "}", "IsZero", "@item.Expiration", "After", "@item.Expiration", "{ret", "delete", "@m.data", "}", "@item.Value", "{ret", "@item.Value", "}"]
 def Mem_Set : List String := ["mu.Lock", "defer mu.Unlock", "@m.data", "@m.data", "Add", "@m.data"]
 def Mem_SetExpiration : List String := ["mu.Lock", "defer mu.Unlock", "@m.data", "{ret", "}", "IsZero", "@item.Expiration", "After", "@item.Expiration", "{ret", "delete", "@m.data", "}", "@item.Expiration", "expirationFor"]
@@ -28,6 +28,21 @@ def Mem_SetHash : List String := ["mu.Lock", "defer mu.Unlock", "@m.data", "@m.d
 def Mem_SetList : List String := ["m.Set"]
 def Mem_SetNX : List String := ["mu.Lock", "defer mu.Unlock", "@m.data", "IsZero", "@item.Expiration", "After", "@item.Expiration", "{ret", "}", "delete", "@m.data", "Add", "@m.data"]
 def Mem_expirationFor : List String := ["{ret", "}", "Add"]
+def Repo_Cleanup_Acquire : List String := ["SetNX", "Get", "Delete", "Delete", "Delete", "Delete", "Delete", "CompareAndSwap", "Delete", "Delete"]
+def Repo_Cleanup_Complete : List String := ["Delete", "Get", "Delete", "CompareAndSwap"]
+def Repo_Cleanup_Register : List String := ["Exists", "Set"]
+def Repo_Generic_AddToList : List String := ["AppendToList"]
+def Repo_Generic_Create : List String := ["Get"]
+def Repo_Generic_Delete : List String := ["Delete"]
+def Repo_Generic_Get : List String := ["Get"]
+def Repo_Generic_List : List String := ["GetList"]
+def Repo_Generic_RemoveFromList : List String := ["RemoveFromList"]
+def Repo_Generic_Save : List String := ["Set"]
+def Repo_Generic_Update : List String := ["Get"]
+def Repo_Lock_Acquire : List String := ["SetNX"]
+def Repo_Lock_IsLocked : List String := ["Exists"]
+def Repo_Lock_Release : List String := ["Get", "Delete"]
+def Repo_Lock_RenewLock : List String := ["Get", "CompareAndSwap"]
 end Skel
 
 end Gen
